@@ -31,6 +31,11 @@ def gen_history(r):
             e = r.choice(NUMS)
             if r.random() < 0.5: e = f"({e}) {r.choice(UNITS)}"
             if r.random() < 0.4: e = f"{e} {r.choice(FMTS)}"
+            if r.random() < 0.15:
+                # the result of an explicit conversion into a compound unit keeps that unit (it is not simplified again): a flag of the stored
+                # number that only shows when the value is printed or used after the reload
+                u1, u2 = r.choice(["m", "km", "s", "kg", "ft", "hour"]), r.choice(["m", "km", "cm", "s", "ms", "g", "inch"])
+                e = f"({r.choice(NUMS)}) {u1} {u2} to {u1} {u2}"
         elif k < 0.4:
             e = r.choice(STRS)
         elif k < 0.55:
